@@ -77,6 +77,8 @@ impl PidFileLocking {
                 self.get_locker_pid()
             )))
         } else {
+            #[cfg(fuellabs_sway_verif)]
+            verif_step("release.remove", &self.0);
             self.remove_file()?;
             Ok(())
         }
@@ -97,15 +99,23 @@ impl PidFileLocking {
     /// Returns the PID of the owner of the current lock. If the PID is not longer active the lock
     /// file will be removed
     pub fn get_locker_pid(&self) -> Option<usize> {
+        #[cfg(fuellabs_sway_verif)]
+        verif_step("pid.open", &self.0);
         let fs = File::open(&self.0);
         if let Ok(mut file) = fs {
             let mut contents = String::new();
+            #[cfg(fuellabs_sway_verif)]
+            verif_step("pid.read", &self.0);
             file.read_to_string(&mut contents).ok();
             drop(file);
             if let Ok(pid) = contents.trim().parse::<usize>() {
+                #[cfg(fuellabs_sway_verif)]
+                verif_step("pid.ps", &self.0);
                 return if Self::is_pid_active(pid) {
                     Some(pid)
                 } else {
+                    #[cfg(fuellabs_sway_verif)]
+                    verif_step("pid.remove", &self.0);
                     let _ = self.remove_file();
                     None
                 };
@@ -130,7 +140,11 @@ impl PidFileLocking {
             create_dir_all(dir)?;
         }
 
+        #[cfg(fuellabs_sway_verif)]
+        verif_step("lock.create", &self.0);
         let mut fs = File::create(&self.0)?;
+        #[cfg(fuellabs_sway_verif)]
+        verif_step("lock.write", &self.0);
         fs.write_all(std::process::id().to_string().as_bytes())?;
         fs.sync_all()?;
         fs.flush()?;
@@ -149,15 +163,25 @@ impl PidFileLocking {
             let path = entry.path();
             if let Some(ext) = path.extension().and_then(|ext| ext.to_str()) {
                 if ext == "lock" {
+                    #[cfg(fuellabs_sway_verif)]
+                    verif_step("cleanup.open", &path);
                     if let Ok(mut file) = File::open(&path) {
                         let mut contents = String::new();
+                        #[cfg(fuellabs_sway_verif)]
+                        verif_step("cleanup.read", &path);
                         if file.read_to_string(&mut contents).is_ok() {
                             if let Ok(pid) = contents.trim().parse::<usize>() {
+                                #[cfg(fuellabs_sway_verif)]
+                                verif_step("cleanup.ps", &path);
                                 if !Self::is_pid_active(pid) {
+                                    #[cfg(fuellabs_sway_verif)]
+                                    verif_step("cleanup.remove", &path);
                                     remove_file(&path)?;
                                     cleaned_paths.push(path);
                                 }
                             } else {
+                                #[cfg(fuellabs_sway_verif)]
+                                verif_step("cleanup.remove", &path);
                                 remove_file(&path)?;
                                 cleaned_paths.push(path);
                             }
@@ -168,6 +192,13 @@ impl PidFileLocking {
         }
         Ok(cleaned_paths)
     }
+}
+
+/// Verification hook H6: a step point placed immediately before a file-system operation.
+#[cfg(fuellabs_sway_verif)]
+fn verif_step(point: &str, path: &Path) {
+    let name = path.file_name().and_then(|n| n.to_str()).unwrap_or("");
+    sway_utils::verif::step(point, &format!("\"file\":\"{}\"", sway_utils::verif::esc(name)));
 }
 
 /// Checks if the specified file is marked as "dirty".
